@@ -185,6 +185,8 @@ theorem nested_fuel (S : Schema) : ∀ (fuel : Nat) (c : Nat) (d : MsgD) (sl : L
       | flat _ _ hff hok =>
         exact flat_selected_emits S f _ b (by simp [hg]) (flat_member_scalar f _ g hff hok hne hgo hg) hb
       | unsetSub _ c' _ _ => exact absurd rfl hne
+      | unsetAny _ _ => exact absurd rfl hne
+      | noneAny _ ho => rw [hgo] at ho; simp at ho
       | noneSub _ c' _ ho => rw [hgo] at ho; simp at ho
       | sub _ c' sl' ow' unk' cur' hsf _ _ => exact sub_selected_emits S f c' sl' ow' unk' cur' b hsf (by simp [hg]) hb
       | subs _ c' xs hsf hr _ => have := (hsf.rep hr).2; rw [hg] at this; simp at this
@@ -220,6 +222,14 @@ theorem nested_fuel (S : Schema) : ∀ (fuel : Nat) (c : Nat) (d : MsgD) (sl : L
         apply slotStep_empty
         intro b hb
         exact ph_emits_nothing S f k cur b ho (hphsel rfl) hb
+      | unsetAny _ ho =>
+        apply slotStep_empty
+        intro b hb
+        exact ph_emits_nothing S f k cur b ho (hphsel rfl) hb
+      | noneAny _ _ =>
+        apply slotStep_empty
+        intro b hb
+        rw [dumpSlot] at hb; injection hb with hb; exact hb.symm
       | noneSub _ c' _ _ =>
         apply slotStep_empty
         intro b hb
